@@ -683,7 +683,7 @@ func (vc *VC) addrHeap(a ssa.Value, mod map[string]bool) {
 	case *ssa.Global:
 		mod[vc.globalName(x)] = true
 	case *ssa.Alloc:
-		if !x.Heap && vc.allocIsLocal(x) {
+		if vc.allocIsLocal(x) && (!x.Heap || vc.capturedReadOnly(x)) {
 			mod[vc.localName(x)] = true
 			return
 		}
